@@ -6,6 +6,18 @@ set -u
 export GOFLAGS=-mod=mod GOPROXY=off GOSUMDB=off GOTOOLCHAIN=local
 SD=$1; NAME=$2; shift 2
 PATCH=$SD/patch.diff
+# rebuild the demonstration module from the committed copies when /tmp/seedkit is gone
+if [ ! -d /tmp/seedkit/kit ]; then
+  mkdir -p /tmp/seedkit/kit /tmp/seedkit/example
+  cp /verif/seeded/seedkit/kit.go.txt /tmp/seedkit/kit/kit.go
+  cp /verif/seeded/seedkit/example_main.go.txt /tmp/seedkit/example/main.go
+  cp /verif/seeded/seedkit/README.md /tmp/seedkit/
+  { echo "module seedkit"; echo; echo "go 1.18"; echo; sed -n '/^require/,$p' /repo/go.mod; } > /tmp/seedkit/go.mod
+  cp /repo/go.sum /tmp/seedkit/go.sum
+fi
+if [ ! -d /tmp/seedkit/demo_$NAME ] && [ -f $SD/demo_main.go.txt ]; then
+  mkdir -p /tmp/seedkit/demo_$NAME && cp $SD/demo_main.go.txt /tmp/seedkit/demo_$NAME/main.go
+fi
 WT=/tmp/seedv/$NAME
 mkdir -p /tmp/seedv
 rm -rf $WT; git -C /repo worktree prune; git -C /repo worktree add -q --detach $WT HEAD || exit 2
